@@ -595,9 +595,12 @@ func (c *Canary) handleTCP(eh *ethernet.Frame, iph *ipv4.Header, data []byte) er
 		// our FIN is now acknowledged then enter FIN-WAIT-2 and continue
 		// processing in that state.
 		state.State = SocketFinWait2
-	} else if state.State == SocketFinWait2 {
-		state.State = SocketTimeWait
 	}
+
+	// (A segment without FIN leaves FIN-WAIT-2 alone. Entering TIME-WAIT here on
+	// any acknowledgement meant that a client which first acknowledges our FIN
+	// and sends its own FIN later never got that FIN acknowledged: the FIN
+	// handling below answers only in ESTABLISHED and FIN-WAIT-1/2.)
 
 	if state.State == SocketEstablished ||
 		state.State == SocketFinWait1 ||
